@@ -104,7 +104,7 @@ PROPS = {
         "case_sets": ["compile", "content"],
         "ops": ["COMPILE"],
         "oracle_clauses": [r"c05-.*", r"unreadable-.*"],
-        "lean_targets": ["PqlModel.Props.C05"],
+        "lean_targets": ["PqlModel.Props.C05", "PqlModel.Props.C02Split"],
         "facts": [],
         "rule": "COMPILE on generated, corrupted-but-accepted and adversarial-content programs; the output must lex, end in one ';', "
                 "balance brackets, parse as [WITH …] select, read only source tables or earlier CTEs, have unique generated names, "
@@ -161,7 +161,7 @@ PROPS = {
         "case_sets": ["eval"],
         "ops": ["EVAL"],
         "oracle_clauses": [r"c02-.*", r"c05-parse", r"c05-name-capture", r"unreadable-.*"],
-        "lean_targets": ["PqlModel.Props.C02"],
+        "lean_targets": ["PqlModel.Props.C02", "PqlModel.Props.C02Split"],
         "facts": ["canAttachSortFalse"],
         "rule": "EVAL: every sequence of up to 3 (quick) / 4 (thorough) of the eleven operators with fixed small arguments, a corpus of "
                 "order-sensitive pipelines and random generated pipelines over tables T U V; the emitted SQL is evaluated by the "
@@ -175,7 +175,7 @@ PROPS = {
         "ops": ["EVAL"],
         "line_regex": r"6a6f696e",      # only pipelines that contain a join
         "oracle_clauses": [r"c03-.*", r"c05-parse", r"c05-name-capture", r"unreadable-.*"],
-        "lean_targets": ["PqlModel.Props.C03"],
+        "lean_targets": ["PqlModel.Props.C03", "PqlModel.Props.C02Split"],
         "facts": ["joinTypes", "leftJoinTableAlias", "rightJoinTableAlias"],
         "rule": "EVAL on pipelines with joins: all three kinds, bare / explicit / mixed conditions, operators before the join, "
                 "multi-operator right sides, nested and sequential joins (depth <= 2 random, corpus of shapes); evaluated as for C02; "
